@@ -31,3 +31,6 @@ def run(prog, chk):
     # a node linked with a wrong back pointer is later unlinked wrongly: its slot is recycled while still reachable, two elements share an address
     C.link_idiom(prog, chk, "C05.k", tuple(C.NODE))
     C.self_assign_noop(prog, chk, "C05.l")
+    # an insertion before begin() must not lose sight of the old first element: the position argument may be the container's own
+    # _begin member, which the insertion re-seats (rule shared with C01.d4 / C02.g / C03.d)
+    C.iterator_param_alias(prog, chk, "C05.m", tuple(C.NODE))
